@@ -80,7 +80,7 @@ def vectors(tier, seed):
         vs.append(("RESOLVE_PTR", "v6", a, 0))
         vs.append(("RESOLVE", "v6", a, 0))
     # the server's method selection: mostly 'no authentication' in one segment; every 4th vector another reply
-    sels = ["split", "m2", "m2split", "none", "badver", "m1", "split", "sync", "sync"]
+    sels = ["split", "m2", "m2split", "none", "badver", "m1", "split", "sync", "sync", "coalesced", "coalesced"]
     vs = [v + (("ok",) if i % 4 else (sels[(i // 4) % len(sels)],)) for i, v in enumerate(vs)]
     if tier == "thorough":
         for p in range(65536):
